@@ -21,6 +21,25 @@ def evaluate(run, cases):
     return arb.evaluate(run, cases, fn="c16_case", with_erased=True, extra=raw_class)
 
 
+def judge_owner(run, cases, rows1):
+    """`the hosts it held pass to the next claimant`: after every event (class changes included) the owner of every host is the
+    least claimant of the own-class, valid objects (the C01 specification, evaluated here because a class change is an event
+    like any other for it)"""
+    from .c01 import SP_H, SP_L
+    for c in cases:
+        if c.get("error") or c["id"] not in rows1:
+            continue
+        r = rows1[c["id"]]
+        step = r[SP_H] or r[SP_L]
+        if step:
+            ev = c["histories"][0]["events"][step - 1]
+            run.failing({"kind": "host-not-passed-to-next-claimant", "event_note": ev.get("note")}, [c],
+                        "C16: after step %d of case %d (%s %s %s/%s, class ok=%s) some host or listener is not held by the least claimant among the valid resources of this controller's class "
+                        "(a host a resource of another class held must pass to the next claimant, and only own-class resources may hold hosts)"
+                        % (step, c["id"], ev.get("note"), ev["spec"]["kind"], ev["spec"].get("ns"), ev["spec"].get("name"), ev["m"].get("cls")),
+                        theorem="Arb.Spec.hosts_spec_ok")
+
+
 def judge(run, cases, rows):
     for c in cases:
         if c.get("error"):
@@ -75,6 +94,16 @@ def judge_ctl(run, cases, rows):
                         "never learns that the resource is now %s" % (r[DD], c["id"], ev["spec"]["kind"], ev["spec"]["ns"], ev["spec"]["name"], ev["spec"].get("class_ann"),
                                                                      ev["spec"].get("class_field"), "its own" if ev["m"].get("cls") else "foreign"),
                         theorem="Arb.Cases.delivery_code")
+        pp = c.get("policy_probe") or {}
+        if pp.get("ran") and pp.get("before") and pp.get("after"):
+            run.failing({"kind": "foreign-policy-still-contributes"}, [c],
+                        "C16: after the history of case %d a VirtualServer of this controller uses an accessControl Policy; the Policy is edited in place so that its class designates another "
+                        "controller (real policy handler, real lbc.sync): the rule it contributed (deny 10.11.12.13;) is still in the VirtualServer's file" % c["id"],
+                        theorem="harness arb (VerifCtl.PolicyProbe)")
+        elif pp and (not pp.get("ran") or not pp.get("before")):
+            run.failing({"kind": "harness-case-error", "where": "policy-probe"}, [c],
+                        "the policy probe could not be set up after case %d (Policy rule not rendered for an own-class Policy): %s" % (c["id"], json.dumps(pp)),
+                        theorem="harness arb (VerifCtl.PolicyProbe)", found_input=False)
         wp = c.get("weight_probe") or {}
         if wp.get("stored") or wp.get("events") or wp.get("writes"):
             run.failing({"kind": "foreign-weight-update-stored"}, [c],
@@ -96,6 +125,7 @@ def check(run):
     cases = arb.generate(run, n, ctl=True)
     rows = evaluate(run, cases)
     judge(run, cases, rows)
+    judge_owner(run, cases, arb.evaluate(run, cases, tag="arb1"))
     part = cases[: (150 if run.tier == "quick" else 2500)]
     crow = arb.evaluate(run, part, fn="ctl_case", extra=arb.ctl_term, tag="arbctl")
     judge_ctl(run, part, crow)
@@ -113,7 +143,9 @@ def check(run):
                         "handler of its kind (add/update/delete) and an update may be dropped only if it is identical to the last event about the object; at the end of the history the "
                         "real OnStartedLeading callback runs on the cluster (every object has an Event in the API, three Policies of own/foreign/named class exist) and its status "
                         "writes must not name a foreign-class object; and a weight-only update of a foreign-class VirtualServer is delivered to the real update handler with "
-                        "-weight-changes-dynamic-reload on: it must not be stored, claim a host, or receive events / status writes")
+                        "-weight-changes-dynamic-reload on: it must not be stored, claim a host, or receive events / status writes; a Policy in use by an own-class VirtualServer is "
+                        "edited to another class through the real policy handler: its rule must leave the VirtualServer's file; and after every event the owner of every host is the least "
+                        "own-class claimant (hosts pass to the next claimant)")
     run.assumptions += [
                         "Policies are not arbitrated by Configuration; their class filter (getPolicies) is covered by C08"]
 
